@@ -128,7 +128,7 @@ func (st *stepper) step(op string) (string, []failure) {
 
 // caseTimeout bounds one case (normally a few milliseconds).  A case that exceeds it is a hang of the code
 // under test: it becomes an oracle failure whose replay is the prefix up to and including the hanging request.
-const caseTimeout = 45 * time.Second
+const caseTimeout = 20 * time.Second
 
 // execCase interprets the op lines of one case (buffered: nothing is written to the run).  With stopAtFail the
 // case ends at the first request on which a property oracle fails (the prefix is the failing input).
